@@ -34,6 +34,7 @@ let fault_of k = function
   | "none" -> Model.NoFault
   | "err" -> Model.ErrAt (n_of_int k)
   | "short" -> Model.ShortAt (n_of_int k)
+  | "full" -> Model.FullErrAt (n_of_int k)
   | _ -> failwith "fault"
 
 let verdict cur lay buf fk k =
@@ -228,3 +229,17 @@ let () =
         let t = parse_table size fs b rows in
         ranges_tok (Model.declared_ranges t) ^ "|" ^ ranges_tok (Model.needed_ranges t)
     | _ -> failwith "c14.declared args")
+
+(* bloom filter lookups over a failing source (Sink/Bloom.v)
+   c14.bloom <part,part,...>   part = three flags needs_read faulted clean, e.g. 110
+   ->  absent|maybe|failed/<filters consulted> *)
+let () =
+  register "c14.bloom" (function
+    | [parts] ->
+        let ps = List.map (fun p ->
+          if String.length p <> 3 then failwith "part";
+          { Model.p_needs_read = (p.[0] = '1'); p_faulted = (p.[1] = '1'); p_clean = (p.[2] = '1') })
+          (if parts = "_" then [] else split_on ',' parts) in
+        let (a, n) = Model.lookup ps in
+        Printf.sprintf "%s/%d" (match a with Model.Absent -> "absent" | Model.Maybe -> "maybe" | Model.Failed -> "failed") (int_of_nat n)
+    | _ -> failwith "c14.bloom args")
